@@ -160,4 +160,9 @@ def runL (V : Variant) (tn : Nat → Name) : S → List Lbl → Option S
       | some s' => runL V tn s' ls
       | none => none
 
+/-- the first statement of `Get`: a kind is accepted iff it has a type URL (`xdsresource.ResourceTypeToURL`, the numbers of
+its keys are the regenerated fact `knownKinds`); anything else - the zero kind included - is rejected before any cache
+access or subscription -/
+def kindAccepted (known : List Nat) (k : Int) : Bool := known.any (fun n => (n : Int) == k)
+
 end XdsVerif.Conc
